@@ -92,6 +92,7 @@ Renew(pol, id) ==
       [] pol = "next" -> <<(<<id[1], id[2] + 1>>)>>
       [] pol = "same" -> <<id>>
       [] pol = "losing" -> <<(<<id[1], IF id[2] > 0 THEN id[2] - 1 ELSE 0>>)>>
+      [] pol = "cycle" -> <<(<<id[1], (id[2] + 1) % 4>>)>>
 
 \* should_add_broadcast_data for the harness' predicates
 PredHolds(p, id) == CASE p = "all" -> TRUE
